@@ -215,6 +215,11 @@ def key_oracle(table, key, cfg, r):
 
 
 GRADIENT_KEY = 'lg'
+OVERRIDE_GRADIENT_KEY = False
+"""OFF: a user snippet under the key `lg` does NOT replace the built-in one -- the gradient shortcut is resolved before the
+table is consulted (expand('lg', {'type': 'stylesheet', 'snippets': {'lg': 'foo-bar:alpha|beta'}}) gives
+'background-image: linear-gradient();').  rand_value_table has always left `lg` out; rand_user_table drew its overriding
+keys from the whole table and so alarmed on the clean tree whenever the draw hit `lg` (about 1 table in 100)."""
 
 
 def as_listed(source, key, cfg, out):
@@ -323,7 +328,10 @@ def rand_user_table(rng, base):
     keys = list(base)
     lows = {k.lower() for k in keys}
     for _ in range(rng.randint(1, 3)):        # overrides
-        t[rng.choice(keys)] = rand_snip(rng)
+        k = rng.choice(keys)
+        if k == GRADIENT_KEY and not OVERRIDE_GRADIENT_KEY:
+            continue
+        t[k] = rand_snip(rng)
     for _ in range(rng.randint(2, 6)):        # new keys
         k = rng.random()
         if k < 0.4:
